@@ -75,8 +75,9 @@ theorem translateFacts (ra dec r theta : ℝ) (h0 : -90 ≤ dec) (h1 : dec ≤ 9
     with hSdef
   have hS1 : -1 ≤ S ∧ S ≤ 1 := abs_le.mp (abs_le_one_iff_mul_self_le_one.mpr (by nlinarith))
   have hdec : (R.radians (translateDecHand ra dec r theta) : ℝ) = arcsin S := by
-    simp only [translateDecHand, R.real_sin, R.real_cos, R.real_asin]
-    rw [radians_degrees]
+    simp only [translateDecHand, R.real_sin, R.real_cos, R.real_asin, R.real_ofNat, real_min', real_max',
+      Nat.cast_one]
+    rw [radians_degrees, max_eq_right hS1.1, min_eq_right hS1.2]
   have hsin : sin (R.radians (translateDecHand ra dec r theta)) = S := by
     rw [hdec, Real.sin_arcsin hS1.1 hS1.2]
   have hcos : cos (R.radians (translateDecHand ra dec r theta)) = √(1 - S ^ 2) := by
@@ -94,9 +95,7 @@ theorem translateFacts (ra dec r theta : ℝ) (h0 : -90 ≤ dec) (h1 : dec ≤ 9
     have h1 : ‖(⟨x, y⟩ : ℂ)‖ ^ 2 = (cos (R.radians dec) * cos (R.radians (translateDecHand ra dec r theta))) ^ 2 := by
       rw [Complex.sq_norm, Complex.normSq_mk, hcos, mul_pow, Real.sq_sqrt (by nlinarith)]
       nlinarith [hxy]
-    first
-      | exact (sq_eq_sq₀ (norm_nonneg _) (mul_nonneg hc hcos0)).mp h1
-      | exact (pow_left_inj₀ (norm_nonneg _) (mul_nonneg hc hcos0) two_ne_zero).mp h1
+    exact (sq_eq_sq₀ (norm_nonneg _) (mul_nonneg hc hcos0)).mp h1
   refine ⟨hsin, hcos0, ?_, ?_⟩
   · rw [hA, ← hnorm, Complex.norm_mul_cos_arg]; exact hx
   · rw [hA, ← hnorm, Complex.norm_mul_sin_arg]
@@ -111,7 +110,7 @@ theorem dot_translate (ra dec r theta : ℝ) (h0 : -90 ≤ dec) (h1 : dec ≤ 90
   linear_combination hcA + (cos (R.radians r)) * hd
 
 /-- **the translated point is at distance r** (degrees), for every start point with −90 ≤ dec ≤ 90 -/
-theorem sphDist_translate' (ra dec r theta : ℝ) (hd0 : -90 ≤ dec) (hd1 : dec ≤ 90) (h0 : 0 ≤ r) (h1 : r ≤ 180) :
+theorem sphDist_translate (ra dec r theta : ℝ) (hd0 : -90 ≤ dec) (hd1 : dec ≤ 90) (h0 : 0 ≤ r) (h1 : r ≤ 180) :
     sphDist ra dec (translateRaHand ra dec r theta) (translateDecHand ra dec r theta) = r := by
   have hp := Real.pi_pos
   rw [sphDist_eq_arccos_dot, dot_translate ra dec r theta hd0 hd1, Real.arccos_cos]
@@ -119,4 +118,53 @@ theorem sphDist_translate' (ra dec r theta : ℝ) (hd0 : -90 ≤ dec) (hd1 : dec
   · rw [R.real_radians]; positivity
   · rw [R.real_radians]; nlinarith
 
+/-- `arg (ρ·(cos τ + i sin τ)) = τ` modulo 2π, for ρ > 0 -/
+theorem arg_polar (ρ τ : ℝ) (hρ : 0 < ρ) : ∃ k : ℤ, Complex.arg ⟨ρ * cos τ, ρ * sin τ⟩ = τ + 2 * π * k := by
+  have hz : (⟨ρ * cos τ, ρ * sin τ⟩ : ℂ) = (ρ : ℂ) * (((cos τ : ℝ) : ℂ) + ((sin τ : ℝ) : ℂ) * Complex.I) := by
+    apply Complex.ext <;> simp [Complex.cos_ofReal_re, Complex.sin_ofReal_re, Complex.cos_ofReal_im, Complex.sin_ofReal_im]
+  have h := Complex.arg_mul_cos_add_sin_mul_I_coe_angle hρ (τ : Real.Angle)
+  simp only [Real.Angle.cos_coe, Real.Angle.sin_coe] at h
+  rw [Real.Angle.angle_eq_iff_two_pi_dvd_sub] at h
+  obtain ⟨k, hk⟩ := h
+  exact ⟨k, by rw [hz]; linarith⟩
+
+/-- **the initial bearing towards the translated point is θ (mod 360)**, away from the poles -/
+theorem bearHand_translate (ra dec r theta : ℝ) (h0 : 0 < r) (h1 : r < 180) (hd : |dec| < 90) :
+    ∃ k : ℤ, bearHand ra dec (translateRaHand ra dec r theta) (translateDecHand ra dec r theta)
+      = theta + 360 * k := by
+  have hp := Real.pi_pos
+  obtain ⟨hd0, hd1⟩ := abs_lt.mp hd
+  obtain ⟨hs, _, hcA, hsA⟩ := translateFacts ra dec r theta hd0.le hd1.le
+  have hc : 0 < cos (R.radians dec) := by
+    apply Real.cos_pos_of_mem_Ioo
+    constructor <;> (rw [R.real_radians]; nlinarith)
+  have hsr : 0 < sin (R.radians r) := by
+    apply Real.sin_pos_of_pos_of_lt_pi
+    · rw [R.real_radians]; positivity
+    · rw [R.real_radians]; nlinarith
+  have hcA' := mul_left_cancel₀ hc.ne' (by linear_combination hcA :
+    cos (R.radians dec) * (cos (R.radians (translateDecHand ra dec r theta))
+      * cos (R.radians (translateRaHand ra dec r theta) - R.radians ra))
+    = cos (R.radians dec) * (cos (R.radians dec) * cos (R.radians r)
+          - sin (R.radians dec) * sin (R.radians r) * cos (R.radians theta)))
+  have hsA' := mul_left_cancel₀ hc.ne' (by linear_combination hsA :
+    cos (R.radians dec) * (cos (R.radians (translateDecHand ra dec r theta))
+      * sin (R.radians (translateRaHand ra dec r theta) - R.radians ra))
+    = cos (R.radians dec) * (sin (R.radians theta) * sin (R.radians r)))
+  have hdd := Real.sin_sq_add_cos_sq (R.radians dec)
+  have hy : sin (R.radians (translateRaHand ra dec r theta - ra)) * cos (R.radians (translateDecHand ra dec r theta))
+      = sin (R.radians r) * sin (R.radians theta) := by
+    rw [radians_sub]; linear_combination hsA'
+  have hx : cos (R.radians dec) * sin (R.radians (translateDecHand ra dec r theta))
+        - sin (R.radians dec) * cos (R.radians (translateDecHand ra dec r theta))
+          * cos (R.radians (translateRaHand ra dec r theta - ra))
+      = sin (R.radians r) * cos (R.radians theta) := by
+    rw [radians_sub, hs]
+    linear_combination (-sin (R.radians dec)) * hcA' + (sin (R.radians r) * cos (R.radians theta)) * hdd
+  obtain ⟨k, hk⟩ := arg_polar (sin (R.radians r)) (R.radians theta) hsr
+  refine ⟨k, ?_⟩
+  simp only [bearHand, R.real_sin, R.real_cos, R.real_atan2]
+  rw [hy, hx, hk, R.real_degrees, R.real_radians]
+  field_simp
+  ring
 end Aegean.C17
